@@ -231,7 +231,8 @@ with get_involved (f : nat) (s : tstate) (nd : node) {struct f} : tstate * optio
     end
   end.
 
-Definition fuel (s : tstate) : nat := 2 * length (info s) + 2 * length (children s) + 6.
+(* enough for any node made of leaves 0..N-1 (depth <= N); the other terms are slack *)
+Definition fuel (s : tstate) : nat := 2 * N + 2 * length (info s) + 2 * length (children s) + 6.
 
 Definition g_legs (s : tstate) (nd : node) : tstate * legs := get_legs (fuel s) s nd.
 (* get_involved called from outside get_legs: the KeyError is fatal *)
